@@ -17,6 +17,7 @@ import CimbaModel.Stats.ArraysLemmas
 import CimbaModel.Stats.SummaryLemmas
 import CimbaModel.Stats.HistLemmas
 import CimbaModel.Stats.AcfLemmas
+import CimbaModel.Stats.MonitorLemmas
 
 namespace CimbaModel.Props.C18
 open CimbaModel.Stats
@@ -128,6 +129,20 @@ theorem fivenum_ordered_weighted (s : TS K) (h : s.WF) (hmm : s.ds.MinMaxOK) (hc
   TS.fivenum_spec s h hmm hc hw
 
 end
+
+/-! ### … and in the form of the executable monitor that tools/props/C18.py evaluates on the
+    implementation's answers (Monitor.C18 over exact rationals) -/
+
+theorem median_monitor (s : DS ℚ) (h : s.WF) (hc : 0 < s.count) (hc32 : s.count < 4294967296) :
+    ∃ m, s.median = some m ∧
+      CimbaModel.Monitor.C18.isMedian (CimbaModel.Monitor.C18.unitWeights s.samples) m = true := by
+  obtain ⟨m, hm, a, b⟩ := DS.median_spec s h hc hc32
+  exact ⟨m, hm, (isMedian_unit_iff s.samples m).mpr ⟨a, b⟩⟩
+
+theorem median_monitor_weighted (s : TS ℚ) (h : s.WF) (hc : 0 < s.ds.count) (hw : ∀ p ∈ s.triples, 0 ≤ p.2.2) :
+    ∃ m, s.median = some m ∧ CimbaModel.Monitor.C18.isMedian (xwOf s.triples) m = true := by
+  obtain ⟨m, hm, _, a, b⟩ := TS.median_spec s h hc hw
+  exact ⟨m, hm, (isMedian_triples_iff s.triples m).mpr ⟨a, b⟩⟩
 
 /-! ### Histograms account for every sample exactly once -/
 
